@@ -281,6 +281,30 @@ def questionVerdict (H : Bytes → Bytes) (ps : Bytes → Bytes × Bool) (stores
 def questionRespond (stores : Nat → Store) (cfg : MatcherCfg) (qname : Bytes) (qt : Nat) : Resp :=
   respond stores cfg (normalizeDomain qname) qt
 
+/-! ### What the builder makes of the configuration (internal/cmd) -/
+
+/-- `.sb.dns.adguard.com` and `.pc.dns.adguard.com` (Tie `sb_suffix_src`, `pc_suffix_src`). -/
+def sbSuffix : Bytes := [46, 115, 98, 46, 100, 110, 115, 46, 97, 100, 103, 117, 97, 114, 100, 46, 99, 111, 109]
+def pcSuffix : Bytes := [46, 112, 99, 46, 100, 110, 115, 46, 97, 100, 103, 117, 97, 114, 100, 46, 99, 111, 109]
+
+/-- The matcher of `builder.initHashPrefixFilters`: the storage of the dangerous-domains list (0)
+under the general suffix and that of the adult list (1) under the parental one, each only when its
+environment switch (`SAFE_BROWSING_ENABLED`, `ADULT_BLOCKING_ENABLED`) is on; the newly-registered
+list has no TXT suffix. -/
+def builtCfg (sbEnv adultEnv : Bool) : MatcherCfg :=
+  (if adultEnv then [(pcSuffix, 1)] else []) ++ (if sbEnv then [(sbSuffix, 0)] else [])
+
+/-- The lists a question meets when the builder has created a filter only for the lists whose
+environment switch is on: the others are nil in `filterstorage.ConfigHashPrefix`, and
+`composite.New` leaves nil filters out. -/
+def builtLists (sbEnv adultEnv nrdEnv : Bool) (enabled : List Nat) : List Nat :=
+  enabled.filter (fun i => (i == 0 && sbEnv) || (i == 1 && adultEnv) || (i == 2 && nrdEnv))
+
+/-- A refresh from the list's URL: `refreshable.refreshFromURL` refuses an empty body ("empty text,
+not resetting"), so the list before stays; anything else goes to `Storage.Reset`. -/
+def installText (H : Bytes → Bytes) (st : Store) (text : Bytes) : Store × Option Nat :=
+  if text = [] then (st, none) else reset H st text
+
 /-! ### Histories of resets -/
 
 /-- `Storage.Reset` applied to storage number `i`. -/
@@ -317,6 +341,22 @@ def hashesLoads (cnt enc : List Store) (prefs : List Bytes) : Option (List Bytes
   if prefs = [] then some []
   else if (encodeLoop enc prefs).length < countLoop cnt prefs then none
   else some ((encodeLoop enc prefs).take (countLoop cnt prefs))
+
+/-- The candidate loop of `Filter.FilterRequest` with the map every single look-up goes to made
+explicit: candidate number `k` is looked up in `maps[k]`.  Before `Storage.MatchesAny` the loop
+called `Storage.Matches` per candidate and every call loaded the shared pointer anew, so the maps
+could differ (`filter_reload_counterexample`); `MatchesAny` loads it once, before the loop (Tie
+`matches_any_calls_src`, `filter_match_call_src`): the instance with the same map everywhere, which
+is `firstMatch` (`firstMatchLoads_snapshot`). -/
+def firstMatchLoads (H : Bytes → Bytes) : List Store → List Bytes → Option Bytes
+  | st :: maps, s :: subs =>
+    if «matches» H st s then (if s = [] then none else some s) else firstMatchLoads H maps subs
+  | _, _ => none
+
+/-- `FilterRequest` with the maps of its look-ups explicit. -/
+def filterRuleLoads (H : Bytes → Bytes) (ps : Bytes → Bytes × Bool) (maps : List Store) (host : Bytes)
+    (qt : Nat) : Option Bytes :=
+  if isFilterable qt then firstMatchLoads H maps (hashableSubdomains ps host) else none
 
 /-- The map in force after the first `k` resets of a history: what a lookup that loads the
 pointer at that moment works on, whatever the later resets do meanwhile. -/
